@@ -57,7 +57,17 @@ def is_bare_control_word(it):
     return it[0] == 'macro' and all(sl is None for sl in it[3])
 
 
+# Points the documentation leaves open; the check accepts every combination (ALTERNATIVES):
+#  'verbatim-display-newlines': display math kept verbatim with / without a newline around it
+#  'minlen-strict': keep_braced_groups keeps a group whose content is *longer than* the minimum
+#                   length (the doc's wording) rather than at least as long
+ALTERNATIVES = [{}, {'verbatim-display-newlines': False}, {'minlen-strict': True},
+                {'verbatim-display-newlines': False, 'minlen-strict': True}]
+
+
 class Model(object):
+    alt = {}
+
     def __init__(self, options, render):
         self.P0 = policy(options.get('strict_latex_spaces', False))
         self.math_mode = options.get('math_mode', 'text')
@@ -104,7 +114,8 @@ class Model(object):
 
     def group(self, items, P, o, c):
         inner = self.list(items, P)
-        if self.keep_braced_groups and len(inner) >= 2:
+        if self.keep_braced_groups and (len(inner) > 2 if self.alt.get('minlen-strict')
+                                        else len(inner) >= 2):
             return o + inner + c
         return inner
 
@@ -153,7 +164,8 @@ class Model(object):
         if mm == 'remove':
             return ''
         if mm == 'verbatim':
-            return ('\n' + src + '\n') if display else src
+            return ('\n' + src + '\n') if (display and self.alt.get(
+                'verbatim-display-newlines', True)) else src
         content = self.list(body, equation_policy(P)).strip()
         if mm == 'with-delimiters':
             if display:
